@@ -2,6 +2,7 @@
 #pragma once
 #include "ref_ta.hh"
 #include <vata/explicit_tree_aut.hh>
+#include "runner.hh"
 #include <functional>
 #include <memory>
 
@@ -79,7 +80,7 @@ inline VATA::ExplicitTreeAut build(const ref::TA& A, bool reverseOrder = false) 
 }
 inline ref::TA readBack(const VATA::ExplicitTreeAut& x) {
   ref::TA r; for (auto t : x) { ref::Rule z; z.sym = (int)t.GetSymbol(); z.par = t.GetParent(); z.ch = t.GetChildren(); r.rules.insert(z); }
-  for (auto f : x.GetFinalStates()) r.finals.insert(f); return r;
+  for (auto f : x.GetFinalStates()) r.finals.insert(f); verif::obs(r.str()); return r;
 }
 // number of rules yielded by iteration (multiset size; differs from readBack().rules.size() on duplicates)
 inline size_t countRules(const VATA::ExplicitTreeAut& x) { size_t n = 0; for (auto t : x) { (void)t; n++; } return n; }
